@@ -37,7 +37,7 @@ Definition expr_sound : Prop :=
    mode validates merges and loop results by re-computation, which acceptance alone does not give
    syntactically); the harness measures how many mypy-accepted generated programs are certified. *)
 Definition accepted_and_validated_is_certified : Prop :=
-  forall P, check_prog P = true -> forallb (fun r => match r with Unsup => false | _ => true end) (check_defs P true) = true ->
+  forall P, check_prog P = true -> forallb (fun r => match r with Unsup _ => false | _ => true end) (check_defs P true) = true ->
     check_prog_certified P = true.
 
 (* stage 1 for mypy's own isinstance narrowing (sm = false).  REFUTED: Properties.narrow_isinstance_refuted *)
